@@ -1,5 +1,5 @@
 """C19 - style cascade and colour encoding.
-Models: coq/Model/C19_{Style,Sgr,Palette,Run}.v; theorems: coq/Props/C19.v.
+Models: coq/Model/C19_{Style,Sgr,Palette,FromDict,Transform,Float,Cache,Merged,Memoized,Xterm,Run}.v; theorems: coq/Props/C19.v.
 
 A case is [op, args...] (see run_C19 in coq/Model/C19_Run.v):
   1 cascade      [1, mode, sheets, style_str, default]   mode 0 Style(rules), 1 merge_styles
@@ -16,6 +16,13 @@ A case is [op, args...] (see run_C19 in coq/Model/C19_Run.v):
   16 caches      [16, queries]                            a query history over fresh caches
   17 merged      [17, pool, objects, events]              merged/dynamic style objects: look-ups interleaved
                                                           with switches of the dynamic sheets
+  18 vt100       [18, [[depth, attrs]...]]                ONE Vt100_Output: set_attributes(attrs, depth) in sequence,
+                                                          the text written by each call
+  20 transform   [20, tree, attrs]                        as 15 on the REAL float kernels (Model/C19_Float.v: colorsys
+                                                          over binary64 floats); per-node brightness bounds
+  21 kernels     [21, mn, mx, r, g, b]                    get_opposite_color / AdjustBrightness(mn/1000, mx/1000) on
+                                                          the colour rrggbb, bit-exact
+  22 plane       [22, mn, mx, r]                          digest of op 21 over the plane r x 256 x 256 (thorough)
 """
 import itertools
 
@@ -24,9 +31,11 @@ from common import *  # noqa
 PROP = "C19"
 TABLES = ["Whitespace", "C19_Palette"]
 MODELS = [("c19", "Extract/ExC19.v", "run_C19")]
+FLOAT_PROPS = "Proofs/C19_FloatProps.v"
 OPN = {1: "cascade", 2: "escape-code", 3: "sgr-decode", 4: "ansi-text", 5: "map256", 6: "map16",
        7: "int16", 8: "parse_color", 9: "parse_style_str", 10: "expand_classname", 11: "split",
-       12: "int-format", 13: "end-to-end", 14: "from_dict", 15: "transform", 16: "cache-history", 17: "merged-dynamic"}
+       12: "int-format", 13: "end-to-end", 14: "from_dict", 15: "transform", 16: "cache-history", 17: "merged-dynamic",
+       18: "vt100-history", 20: "transform-real", 21: "float-kernels", 22: "float-plane"}
 DEPTHS = {1: "DEPTH_1_BIT", 4: "DEPTH_4_BIT", 8: "DEPTH_8_BIT", 24: "DEPTH_24_BIT"}
 FIELDS = ("color", "bgcolor", "bold", "underline", "strike", "italic", "blink", "reverse", "hidden")
 HEX = "0123456789abcdefABCDEF"
@@ -172,9 +181,15 @@ def impl_run(case):
         assert len(d) == len(items)
         st = P["Style"].from_dict(d, priority=Priority.MOST_PRECISE if mp else Priority.DICT_KEY_ORDER)
         return [0, enc_attrs(st.get_attrs_for_style_str(unS(style_str)))]
-    if op == 15:
+    if op in (15, 20):
         t = build_transf(case[1])
         return [0, enc_attrs(t.transform_attrs(dec_attrs(case[2])))]
+    if op == 18:
+        return run_vt100_history(case[1])
+    if op == 21:
+        return run_kernels(*case[1:])
+    if op == 22:
+        return run_plane(*case[1:])
     if op == 16:
         return run_history(case[1], shared=True)
     if op == 17:
@@ -239,6 +254,87 @@ def build_transf(x):
         inner = build_transf(x[1][0]) if x[1] else None
         return T.DynamicStyleTransformation(lambda: inner)
     raise ValueError(k)
+
+
+def run_vt100_history(calls):
+    """ONE Vt100_Output (hence one _EscapeCodeCache per depth for the whole
+    history): set_attributes(attrs, depth) for each call; the text each call writes"""
+    import io
+    P = pt()
+    vt = P["vt100"]
+    saved = (vt._16_fg_colors, vt._16_bg_colors, vt._256_colors)
+    vt._16_fg_colors, vt._16_bg_colors, vt._256_colors = vt._16ColorCache(bg=False), vt._16ColorCache(bg=True), vt._256ColorCache()
+    try:
+        buf = io.StringIO()
+        out = vt.Vt100_Output(buf, lambda: None, term="xterm-256color")
+        res = []
+        for depth, a in calls:
+            out.set_attributes(dec_attrs(a), getattr(P["ColorDepth"], DEPTHS[depth]))
+            out.flush()
+            res.append(S(buf.getvalue()))
+            buf.seek(0)
+            buf.truncate()
+        return res
+    finally:
+        vt._16_fg_colors, vt._16_bg_colors, vt._256_colors = saved
+
+
+def _adjust_pieces(t, c):
+    """the statements of AdjustBrightnessStyleTransformation.transform_attrs between
+    _color_to_rgb and the new colour, on the real object's own helpers"""
+    from colorsys import hls_to_rgb, rgb_to_hls
+    from prompt_toolkit.styles.style_transformation import to_float
+    r, g, b = t._color_to_rgb(c)
+    hue, brightness, saturation = rgb_to_hls(r, g, b)
+    brightness = t._interpolate_brightness(brightness, to_float(t.min_brightness), to_float(t.max_brightness))
+    r, g, b = hls_to_rgb(hue, brightness, saturation)
+    return f"{int(r * 255):02x}{int(g * 255):02x}{int(b * 255):02x}"
+
+
+def run_kernels(mn, mx, r, g, b):
+    from prompt_toolkit.styles import style_transformation as T
+    P = pt()
+    c = "%02x%02x%02x" % (r, g, b)
+    opp = getattr(T.get_opposite_color, "__wrapped__", T.get_opposite_color)(c)
+    t = T.AdjustBrightnessStyleTransformation(mn / 1000.0, mx / 1000.0)
+    blank = P["Attrs"]("", "", False, False, False, False, False, False, False)
+    try:
+        identity = t.transform_attrs(blank._replace(color="ansired")).color == "ansired"
+        valid = True
+    except AssertionError:
+        valid, identity = False, False
+    if valid and not identity:
+        adj = t.transform_attrs(blank._replace(color=c)).color
+    else:
+        adj = _adjust_pieces(t, c)
+    return [[S(opp)], [S(adj)], 1 if valid else 0, 1 if identity else 0]
+
+
+DIGEST_P = 2305843009213693951
+
+
+def run_plane(mn, mx, r):
+    from prompt_toolkit.styles import style_transformation as T
+    opp = getattr(T.get_opposite_color, "__wrapped__", T.get_opposite_color)
+    t = T.AdjustBrightnessStyleTransformation(mn / 1000.0, mx / 1000.0)
+    d1 = d2 = 0
+    bad = []
+    for g in range(256):
+        base = "%02x%02x" % (r, g)
+        w1 = w2 = 0
+        for b in range(256):
+            c = base + "%02x" % b
+            v, w = opp(c), _adjust_pieces(t, c)
+            for x in (v, w):
+                if (len(x) != 6 or not LOWHEX.issuperset(x)) and len(bad) < 3:
+                    bad.append((c, x))
+            w1 += (b + 1) * (int(v, 16) + 1)
+            w2 += (b + 1) * (int(w, 16) + 1)
+        d1 = (d1 * 1000003 + w1) % DIGEST_P
+        d2 = (d2 * 1000003 + w2) % DIGEST_P
+    if bad:
+        return [99, S("kernel-range %r" % (bad,))]
+    return [d1, d2]
 
 
 def run_history(queries, shared):
@@ -516,6 +612,27 @@ def kernel_tables(tx, ax):
     return opp, adj
 
 
+COLORSYS_SHA = "04799661da480a5dcee92e0745a37cd3a67b1ec04ec356dc68ef016c2bb56267"
+
+
+def check_colorsys(chk):
+    """Model/C19_Float.v transcribes colorsys.rgb_to_hls / hls_to_rgb / _v of the CPython
+    the implementation runs on: fail closed when that text is not the transcribed one"""
+    import colorsys
+    import hashlib
+    import inspect
+    try:
+        src = "".join(inspect.getsource(f) for f in (colorsys.rgb_to_hls, colorsys.hls_to_rgb, colorsys._v)) + repr(
+            (colorsys.ONE_THIRD.hex(), colorsys.ONE_SIXTH.hex(), colorsys.TWO_THIRD.hex()))
+        h = hashlib.sha256(src.encode()).hexdigest()
+    except Exception as e:  # noqa
+        h = "unavailable: %r" % (e,)
+    chk.coverage["colorsys_source_sha256"] = h
+    if h != COLORSYS_SHA:
+        chk.violation("tie", "colorsys.rgb_to_hls/hls_to_rgb/_v of this CPython are not the text transcribed in Model/C19_Float.v (%s)" % h,
+                      {"kind": "colorsys-source"}, {"sha256": h}, no_input=True)
+
+
 def canon_color(c):
     """the colour an escape sequence can carry for a stored value (None: no spec)"""
     P = pt()
@@ -771,13 +888,41 @@ def oracle(case, res):
                 "MOST_PRECISE" if mp else "DICT_KEY_ORDER", bad[0], got[bad[0]], "precision" if mp else "dictionary", exp[bad[0]]),
                 {"op": "from_dict", "family": "most-precise" if mp else "key-order"})
         return None
-    if op == 15:
+    if op == 18:
+        calls = case[1]
+        if not (isinstance(res, list) and len(res) == len(calls)):
+            return ("set_attributes history raised %r" % (res,), {"op": "vt100-history", "family": "raise"})
+        # the text written for (attrs, depth) is a function of attrs and depth only:
+        # a fresh _EscapeCodeCache with fresh colour caches gives the same text
+        for k, ((depth, a), got) in enumerate(zip(calls, res)):
+            ref = run_history([[0, depth, a]], shared=False)[0]
+            if sx_norm(got) != sx_norm(ref):
+                return ("call %d: set_attributes(%r, %s) wrote %r after %d earlier calls on the same Vt100_Output, %r on a fresh one" % (
+                    k, tuple(dec_attrs(a)), DEPTHS[depth], unS(got), k, unS(ref)), {"op": "vt100-history", "family": "leak"})
+        return None
+    if op == 21:
+        if not (isinstance(res, list) and len(res) == 4):
+            return ("float kernels raised %r" % (res,), {"op": "float-kernels", "family": "raise"})
+        for what, v in (("get_opposite_color", res[0]), ("AdjustBrightness", res[1])):
+            if what == "AdjustBrightness" and not res[2]:
+                continue        # bounds outside 0..1: the real transformation asserts
+            x = unS(v[0]) if v else None
+            if x is None or len(x) != 6 or not LOWHEX.issuperset(x):
+                return ("%s gives %r: not six lower-case hexadecimal digits" % (what, x), {"op": "float-kernels", "family": "kernel-range"})
+        return None
+    if op == 22:
+        if not (isinstance(res, list) and len(res) == 2 and all(isinstance(x, int) for x in res)):
+            return ("float kernel outside six hexadecimal digits on the plane: %r" % (
+                unS(res[1]) if isinstance(res, list) and len(res) == 2 and res[0] == 99 else res,),
+                {"op": "float-kernels", "family": "kernel-range"})
+        return None
+    if op in (15, 20):
         a0 = dec_attrs(case[2])
         nodes = list(transf_nodes(case[1]))
         if res[0] != 0:
             bad_cfg = False
             for n, act in nodes:
-                if n[0] == 3 and not n[1]:
+                if n[0] == 3 and not (0 <= n[3] / 1000.0 <= 1 and 0 <= n[4] / 1000.0 <= 1):
                     bad_cfg = True
                 if n[0] == 2:
                     for w in (unS(n[1]), unS(n[2])):
@@ -787,7 +932,7 @@ def oracle(case, res):
                             bad_cfg = True
             if bad_cfg or canon_color(a0.color) is None or canon_color(a0.bgcolor) is None:
                 return None
-            adj_active = any(n[0] == 3 and act and not n[2] for n, act in nodes)
+            adj_active = any(n[0] == 3 and act and not (n[3] == 0 and n[4] == 1000) for n, act in nodes)
             has_default = a0.color == "default" or any(n[0] == 2 and unS(n[1]) == "default" for n, _ in nodes)
             fam = "raise-adjust-default" if (res[0] == 1 and adj_active and has_default) else "raise"
             return ("transformation raised %r on in-domain attributes %r" % (res, tuple(a0)), {"op": "transform", "family": fam})
@@ -887,7 +1032,7 @@ STYLES_SMALL = ["bold", "nobold", "#ff0000 italic", "bg:ansiblue bold"]
 PARTS_SMALL = ["class:a", "class:b", "class:a.b", "class:a,b", "class:b,a", "nobold", "italic #00f"]
 NAMES_RAND = NAMES_SMALL + ["b a", "a.b b", "c", "a b c", "a.b.c", " a  b ", "a\tb", "A", "a,b", "a-b_1", "b.a", "a\xa0b", "a b a.b"]
 STYLES_RAND = STYLES_SMALL + ["", "underline", "nounderline", "strike", "blink noblink", "reverse", "hidden", "noinherit",
-                              "noinherit bold", "fg:ansired bg:#00ff00", "ansidarkred", "AliceBlue", "bg:purple", "#abc", "#ABCDEF",
+                              "noinherit bold", "bold noinherit", "italic noinherit underline", "#ff0000 bg:ansiblue noinherit", "fg:ansired bg:#00ff00", "ansidarkred", "AliceBlue", "bg:purple", "#abc", "#ABCDEF",
                               "fg:default", "bg:", "bogus", "#12", "roman", "border:#000", "[transparent]", "noitalic nostrike",
                               "nohidden noreverse", "  bold\titalic ", "#ansiblue", "bg:#ansiteal", "fg:", "bold bold nobold",
                               "[noinherit]", "#00ff00 underline", "BOLD"]
@@ -981,6 +1126,23 @@ def gen_cascade(chk, dist):
         else:
             cases.append([1, 0, [rs], S(s), d])
         dist["cascade_random"] += 1
+    # "noinherit" at every position of a rule string (C19_noinherit_any_position): the other
+    # words of the rule still apply, whatever stands before or after the word
+    word_sets = [["bold"], ["italic", "#ff0000"], ["bg:ansiblue", "underline"], ["nobold", "strike", "fg:ansired"],
+                 ["reverse", "bg:#00ff00", "blink", "hidden"], ["#abc", "noitalic"]]
+    dist["noinherit_positions"] = 0
+    for ws in word_sets:
+        for p in range(len(ws) + 1):
+            sty = " ".join(ws[:p] + ["noinherit"] + ws[p:])
+            for sep in (" ", "  \t"):
+                sty2 = sty.replace(" ", sep)
+                for sheet, ss in (([("a", sty2)], "class:a"), ([("a", "reverse hidden italic"), ("a", sty2)], "class:a"),
+                                  ([("", sty2)], ""), ([("a b", "underline"), ("b", sty2)], "class:a,b"),
+                                  ([("a", sty2), ("a", "bg:ansired")], "class:a nobold")):
+                    cases.append([1, 0, [[rule_sx(r) for r in sheet]], S(ss), DEFAULT_SX])
+                    if len(sheet) == 2:
+                        cases.append([1, 1, [[rule_sx(sheet[0])], [rule_sx(sheet[1])]], S(ss), DEFAULT_SX])
+                    dist["noinherit_positions"] += 1
     return cases
 
 
@@ -1288,6 +1450,141 @@ def gen_transform(chk, dist):
     return cases
 
 
+BOUNDS = [(0, 1000), (300, 1000), (0, 700), (200, 800), (500, 500), (1000, 0), (0, 0), (1000, 1000), (13, 987), (1, 999),
+          (333, 667), (0, 1), (999, 1000)]
+
+
+def gen_transform_real(chk, dist):
+    """op 20: the real transformation objects against the model running on the real
+    float kernels; every AdjustBrightness node has its own bounds"""
+    rng = chk.rng
+    thorough = chk.tier == "thorough"
+    P = pt()
+    colors = ["", "default", "ansired", "ansidefault", "ansibrightblack", "ansiwhite", "ff0000", "FE00aa", "000000", "ffffff", "808080", "0a0b0c", None]
+
+    def bounds():
+        q = rng.random()
+        if q < 0.5:
+            return rng.choice(BOUNDS)
+        if q < 0.9:
+            return rng.randint(0, 1000), rng.randint(0, 1000)
+        return rng.choice([(0, 1500), (-100, 1000), (1001, 1000), (0, -1), (-0, 1000), (2000, 3000)])
+
+    def leaf():
+        r = rng.random()
+        if r < 0.3:
+            return [0]
+        if r < 0.35:
+            return [1]
+        if r < 0.5:
+            return [2, S(rng.choice(["#ff0000", "ansiblue", "default", "", "AliceBlue", "#abc", "bogus", "ansiteal"])),
+                    S(rng.choice(["#000000", "ansiwhite", "default", "", "#zzz", "#123456"]))]
+        if r < 0.95:
+            lo, hi = bounds()
+            # the flags are what the model's real_flags must recompute: deliberately wrong half of the time
+            return [3, rng.randint(0, 1), rng.randint(0, 1), lo, hi]
+        return [4]
+
+    def tree(d):
+        r = rng.random()
+        if d <= 0 or r < 0.45:
+            return leaf()
+        if r < 0.6:
+            return [5, rng.randint(0, 1), tree(d - 1)]
+        if r < 0.9:
+            return [6, [tree(d - 1) for _ in range(rng.randint(0, 3))]]
+        return [7, [tree(d - 1)] if rng.random() < 0.7 else []]
+
+    def col():
+        q = rng.random()
+        if q < 0.5:
+            return "%06x" % rng.getrandbits(24)
+        if q < 0.6:
+            return "".join(rng.choice(HEX) for _ in range(6))
+        return rng.choice(colors + P["NAMES"])
+    cases = []
+    for fg in colors + P["NAMES"]:
+        for lo, hi in BOUNDS:
+            cases.append([20, [3, 0, 0, lo, hi], A_(fg, "", [0] * 7)])
+        cases.append([20, [0], A_(fg, rng.choice(colors), [0] * 7)])
+        cases.append([20, [6, [[3, 0, 0, 300, 1000], [0], [3, 1, 1, 0, 600]]], A_(fg, "", [0] * 7)])
+    for _ in range(10000 if thorough else 1500):
+        cases.append([20, tree(3), A_(col(), col() if rng.random() < 0.4 else rng.choice(["", "default", None]),
+                                      [rng.choice([0, 1]) for _ in range(7)])])
+    dist["transform_real"] = len(cases)
+    return cases
+
+
+def gen_kernels(chk, dist):
+    """op 21: both float kernels on channel bytes, bit-exact: lattice, the corners and
+    gray axis, neighbours of the hue sector boundaries, random colours x random bounds"""
+    rng = chk.rng
+    thorough = chk.tier == "thorough"
+    cases = []
+    step = 15 if thorough else 51
+    k = 0
+    for r in range(0, 256, step):
+        for g in range(0, 256, step):
+            for b in range(0, 256, step):
+                lo, hi = BOUNDS[k % len(BOUNDS)]
+                k += 1
+                cases.append([21, lo, hi, r, g, b])
+    for v in range(256):
+        lo, hi = BOUNDS[v % len(BOUNDS)]
+        cases.append([21, lo, hi, v, v, v])
+        cases.append([21, hi, lo, v, 255 - v, 0])
+        cases.append([21, lo, hi, 255, v, v ^ 1])
+        cases.append([21, lo, hi, v, 255, max(v - 1, 0)])
+    for lo in range(0, 1001, 125):
+        for hi in range(0, 1001, 125):
+            cases.append([21, lo, hi, rng.randrange(256), rng.randrange(256), rng.randrange(256)])
+    for _ in range(60000 if thorough else 6000):
+        lo, hi = (rng.randint(0, 1000), rng.randint(0, 1000)) if rng.random() < 0.8 else rng.choice(BOUNDS + [(-5, 1000), (0, 1001), (1500, 200)])
+        cases.append([21, lo, hi, rng.randrange(256), rng.randrange(256), rng.randrange(256)])
+    dist["float_kernels"] = len(cases)
+    return cases
+
+
+def gen_vt100_history(chk, dist):
+    """op 18: several attrs emitted in sequence on ONE Vt100_Output at each colour depth:
+    all ordered pairs and triples over a small set that exercises the 4-bit fg/bg
+    exclusion (per-call state must not leak into the next call), then random histories
+    that also switch depth"""
+    rng = chk.rng
+    thorough = chk.tier == "thorough"
+    base = [A_("FE0000", "ff0000"), A_("", "ff0000"), A_("ff0000", "ff0000"), A_("ansired", "fe0000"), A_("00ff00", "ff0101"),
+            A_("0000ff", "0000fe"), A_("", ""), A_("ffffff", "fefefe", (1, 0, 0, 0, 0, 1, 0)), A_("808080", "7f7f7f"), A_("", "0000ff")]
+    cases = []
+    for depth in (4, 8, 24, 1):
+        for x in base:
+            for y in base:
+                cases.append([18, [[depth, x], [depth, y], [depth, x]]])
+    for depth in (4,):
+        for x in base[:6]:
+            for y in base[:6]:
+                for z in base[:6]:
+                    cases.append([18, [[depth, x], [depth, y], [depth, z]]])
+
+    def rcol():
+        q = rng.random()
+        if q < 0.45:
+            return rng.choice(["ff0000", "fe0000", "FF0000", "00ff00", "0000ff", "ffffff", "000000", "808080", "7f7f7f", "c0c0c0"])
+        if q < 0.65:
+            return "%06x" % rng.getrandbits(24)
+        if q < 0.85:
+            return rng.choice(pt()["NAMES"])
+        return rng.choice(["", "default", None])
+    for _ in range(5000 if thorough else 700):
+        d0 = rng.choice([4, 4, 8, 24, 1])
+        calls = []
+        for _k in range(rng.randint(2, 8)):
+            d = d0 if rng.random() < 0.8 else rng.choice([1, 4, 8, 24])
+            calls.append([d, A_(rcol(), rcol(), [rng.choice([0, 1]) for _ in range(7)])])
+        cases.append([18, calls])
+    dist["vt100_history"] = len(cases)
+    return cases
+
+
 def gen_cache_history(chk, dist):
     rng = chk.rng
     thorough = chk.tier == "thorough"
@@ -1392,18 +1689,7 @@ def _kernel_worker(args):
     r_lo, r_hi = args
     from prompt_toolkit.styles import style_transformation as T
     from prompt_toolkit.styles import Attrs
-    opp = getattr(T.get_opposite_color, "__wrapped__", None)
-    bad, n = [], 0
-    for r in range(r_lo, r_hi):
-        for g in range(256):
-            base = "%02x%02x" % (r, g)
-            for b in range(256):
-                c = base + "%02x" % b
-                v = opp(c) if opp is not None else kernel_opp(c)
-                n += 1
-                if len(v) != 6 or not LOWHEX.issuperset(v):
-                    if len(bad) < 5:
-                        bad.append(("get_opposite_color", c, v))
+    bad, n = [], 0      # (get_opposite_color over the whole cube: sweep_planes)
     bounds = [(0.0, 0.7), (0.3, 1.0), (0.2, 0.8), (0.5, 0.5), (1.0, 0.0), (0.0, 0.0), (1.0, 1.0), (0.013, 0.987)]
     for lo, hi in bounds:
         t = T.AdjustBrightnessStyleTransformation(lo, hi)
@@ -1432,6 +1718,43 @@ def sweep_kernels(chk, workers=8):
         chk.violation("oracle", "transformation kernel %s(%r) = %r is not six lower-case hexadecimal digits (or differs from the harness kernel)" % (what, c, v),
                       {"op": "transform", "family": "kernel-range"}, {"kernel": what, "colour": c, "observed": v})
     return total
+
+
+def _plane_worker(case):
+    pt()
+    return impl_case(case)
+
+
+def sweep_planes(chk, workers=8):
+    """thorough: BOTH float kernels on the real code against the extracted model over the
+    whole 2^24 cube (one brightness bound pair per red plane), compared through plane
+    digests; a differing plane is searched for the first differing colour"""
+    import multiprocessing as mp
+    ctx = mp.get_context("fork")
+    cases = [[22, BOUNDS[(r % (len(BOUNDS) - 1)) + 1][0], BOUNDS[(r % (len(BOUNDS) - 1)) + 1][1], r] for r in range(256)]
+    with ctx.Pool(workers) as pool:
+        impl = pool.map(_plane_worker, cases)
+    mod = run_model("c19", cases)
+    for c, a, m in zip(cases, impl, mod):
+        try:
+            bad = oracle(c, a)
+        except Exception as e:  # noqa
+            bad = ("oracle raised %r" % (e,), {"op": "float-kernels", "family": "oracle-raise"})
+        if bad:
+            chk.violation("oracle", "float-plane: %s  [input: AdjustBrightness(%s, %s) / get_opposite_color on the colours %02xgggbb]" % (
+                bad[0], c[1] / 1000.0, c[2] / 1000.0, c[3]), bad[1], {"case": c, "observed": sx_norm(a)})
+            continue
+        if sx_norm(a) != m:
+            cells = [[21, c[1], c[2], c[3], g, b] for g in range(256) for b in range(256)]
+            ia = [impl_case(x) for x in cells]
+            mm = run_model("c19", cells)
+            first = next((k for k in range(len(cells)) if sx_norm(ia[k]) != mm[k]), None)
+            what = describe(cells[first], ia[first], mm[first]) if first is not None else "digest %r / %r" % (a, m)
+            chk.violation("correspondence", "float kernels differ from the binary64 model on plane %d: %s" % (c[3], what),
+                          {"op": "float-kernels", "family": "bit-exact"},
+                          {"case": cells[first] if first is not None else c, "observed": sx_norm(ia[first]) if first is not None else sx_norm(a)},
+                          no_input=True)
+    return 2 * 65536 * len(cases)
 
 
 def _sweep_worker(args):
@@ -1491,7 +1814,7 @@ def gen_malformed(chk):
 
 def nontrivial(case, res):
     op = case[0]
-    if op in (1, 13, 14, 15):
+    if op in (1, 13, 14, 15, 20):
         return isinstance(res, list) and res and res[0] == 0 and res[1] != DEFAULT_SX
     if op == 2:
         return len(res) == 2 and len(res[1]) > 4
@@ -1513,8 +1836,12 @@ def show_input(c):
         return "%s(%r)" % (OPN[op], unS(c[1]))
     if op == 14:
         return "Style.from_dict(%r, %s) style_str=%r" % ({unS(n): unS(x) for n, x in c[2]}, "MOST_PRECISE" if c[1] else "DICT_KEY_ORDER", unS(c[3]))
-    if op == 15:
+    if op in (15, 20):
         return "transformation %s on Attrs%r" % (show_transf(c[1]), tuple(dec_attrs(c[2])))
+    if op == 18:
+        return "one Vt100_Output, then " + "; ".join("set_attributes(Attrs%r, %s)" % (tuple(dec_attrs(a)), DEPTHS[d]) for d, a in c[1])
+    if op == 21:
+        return "colour %02x%02x%02x: get_opposite_color, AdjustBrightness(%s, %s)" % (c[3], c[4], c[5], c[1] / 1000.0, c[2] / 1000.0)
     if op == 17:
         def sh(x):
             return ("sheet%d" % x[1] if x[0] == 0 else "DummyStyle()" if x[0] == 1 else "DynamicStyle(slot%d)" % x[1] if x[0] == 2
@@ -1556,7 +1883,7 @@ def describe(c, a, m):
                                                       unS(m[1]) if isinstance(m, list) and len(m) == 2 and isinstance(m[1], list) else m)
     if op in (4, 7, 8, 9, 10, 11):
         return "%s(%r) impl=%r model=%r" % (OPN[op], unS(c[1]), a, m)
-    if op in (14, 15, 16, 17):
+    if op in (14, 15, 16, 17, 18, 20, 21):
         return "%s impl=%r model=%r" % (show_input(c), a, m)
     return "%s%r impl=%r model=%r" % (OPN.get(op, "?"), c[1:], a, m)
 
@@ -1565,7 +1892,38 @@ def main(tier):
     chk = Check(PROP, tier)
     timing = {}
     t = time.time()
-    pr = chk.proofs("Props/C19.v", tables=TABLES)
+    pr = chk.proofs("Props/C19.v", tables=TABLES, extra_trusted=(
+        "Coq's primitive binary64 floats (PrimFloat, kernel primitives evaluated by vm_compute) for the C19 float theorems",
+        "Extract/ExC19.v: realisation of the float primitives by OCaml's native float (IEEE-754 double)",
+        "CPython's Lib/colorsys.py as transcribed in Model/C19_Float.v (text pinned by hash, checked on every run)"))
+    # the float theorems (Proofs/C19_FloatProps.v): same machinery, coqc's kernel (VM); not in the
+    # closure coqchk re-checks in the thorough tier (coqchk has no VM: ~40 min for the 2^24 sweeps)
+    prf = build_proofs(FLOAT_PROPS, tables=TABLES)
+    extra = {f: v for f, v in prf.statements.items() if f not in pr.statements}
+    n_extra = sum(len(v) for v in extra.values())
+    chk.coverage["obligations"] += n_extra
+    chk.coverage["discharged"] += n_extra if prf.ok and prf.obligations == prf.discharged else 0
+    chk.coverage["proof_files"].update({f: len(v) for f, v in extra.items()})
+    try:
+        srcf = re.sub(r"\(\*.*?\*\)", "", open(os.path.join(COQ, FLOAT_PROPS)).read(), flags=re.S)
+    except OSError:
+        srcf = ""
+    fnames = re.findall(r"Print\s+Assumptions\s+([A-Za-z0-9_']+)\s*\.", srcf)
+    fax = {n: (prf.assumptions[i] if prf.ok and i < len(prf.assumptions) else "(not checked)") for i, n in enumerate(fnames)}
+    chk.coverage["float_theorems"] = {"file": FLOAT_PROPS, "checker_cmd": prf.checker_cmd, "theorems": fnames,
+                                      "print_assumptions": fax,
+                                      "note": "kernel primitives (Primitive declarations with computation rules), no axiom; "
+                                              "checked by coqc (VM), outside the coqchk closure"}
+    if prf.forbidden:
+        chk.violation("proof", "forbidden declaration in the development: " + ", ".join(prf.forbidden[:5]),
+                      {"kind": "forbidden"}, {"forbidden": prf.forbidden}, no_input=True)
+    for n, a in fax.items():
+        lines = [l.split(":")[0].strip() for l in a.split("\n")[1:] if l and not l.startswith(" ")]
+        odd = [l for l in lines if not (l.startswith("PrimFloat.") or l.startswith("PrimInt63."))]
+        if not a.startswith("Axioms:") or odd:
+            if prf.ok:
+                chk.violation("proof", "float theorem %s depends on more than kernel primitives: %s" % (n, odd or a[:80]),
+                              {"kind": "assumptions"}, {"theorem": n, "assumptions": a}, no_input=True)
     timing["proofs_s"] = round(time.time() - t, 1)
     t = time.time()
     okm, logm = build_model("c19", "Extract/ExC19.v", "run_C19", tables=TABLES)
@@ -1575,6 +1933,7 @@ def main(tier):
         return chk.finish()
     pt()
     check_tables(chk)
+    check_colorsys(chk)
     dist = {k: 0 for k in ("cascade_exhaustive_small", "cascade_three_rules", "merge_splits", "cascade_random",
                            "escape_all_flags", "escape_random", "sgr_random", "ansi_text", "merge_repeated_rule")}
     cases = load_corpus(PROP)
@@ -1588,6 +1947,9 @@ def main(tier):
     cases += gen_fromdict(chk, dist)
     cases += gen_transform(chk, dist)
     cases += gen_cache_history(chk, dist)
+    cases += gen_transform_real(chk, dist)
+    cases += gen_kernels(chk, dist)
+    cases += gen_vt100_history(chk, dist)
     cases += gen_merged_dynamic(chk, dist)
     nm = len(cases)
     t = time.time()
@@ -1657,11 +2019,16 @@ def main(tier):
         chk.coverage["evaluations"] += chk.coverage["full_cube_256_triples"]
         timing["full_cube_sweep_s"] = round(time.time() - t, 1)
         t = time.time()
+        chk.coverage["float_kernel_cube_evaluations"] = sweep_planes(chk)
+        chk.coverage["evaluations"] += chk.coverage["float_kernel_cube_evaluations"]
+        timing["float_cube_sweep_s"] = round(time.time() - t, 1)
+        t = time.time()
         chk.coverage["kernel_range_evaluations"] = sweep_kernels(chk)
         chk.coverage["evaluations"] += chk.coverage["kernel_range_evaluations"]
         timing["kernel_sweep_s"] = round(time.time() - t, 1)
     chk.coverage["timing"] = timing
     proof_gate(chk, pr)
+    proof_gate(chk, prf)
     chk.coverage["rule"] = (
         "cases = one call of the real code (Style/merge_styles.get_attrs_for_style_str, _EscapeCodeCache[attrs], "
         "ANSI decode, _256ColorCache, _16ColorCache, primitives) compared with the Coq model; cascade: all rule lists of <= 2 rules over "
@@ -1677,7 +2044,9 @@ def main(tier):
         "ANSI parser: texts without \\x01 (ZeroWidthEscape brackets are C18's subject); isdigit() is ASCII in the model",
         "the caches are modelled (C19_caches_transparent, C19_merged_cache_transparent, C19_memoized_swap_transparent); Style identities (id()) are distinct pool ids: reuse of an id after garbage collection is outside the model",
         "a DynamicStyle slot returns a plain Style object or None (not another merged/dynamic style)",
-        "the colorsys float kernels of the transformations are parameters of the model; their range (six hex digits) is checked on the real code (thorough: all 2^24 colours for get_opposite_color)",
+        "the colorsys float kernels are modelled bit for bit over Coq's primitive binary64 floats (Model/C19_Float.v; ops 20-22 compare them with the real code, thorough: every one of the 2^24 colours for both kernels); theorems about them (Proofs/C19_FloatProps.v, built and gated by this harness with coqc, outside the coqchk closure) depend on the kernel's float primitives (listed by Print Assumptions; no float axiom); for AdjustBrightness the range 'six hex digits' is proved only for the ANSI names x a lattice of bounds, otherwise it stays a hypothesis (op 15) checked on the real code",
+        "brightness bounds in the cases are multiples of 1/1000 (the Python float n / 1000.0); int(float) is modelled for |x| < 2^53; ZeroDivisionError of colorsys is modelled as failure",
+        "extraction maps the primitive floats to OCaml's native float with hand-written realisations in Extract/ExC19.v (cross-checked by in-Coq vm_compute evaluation of the same cases)",
         "the 256-colour palette the oracle uses is the fixed xterm palette (16 system colours, 6x6x6 cube, 24 grays), not the implementation's table",
         "colour depth is one of 1, 4, 8, 24 bit",
     ]
